@@ -1,6 +1,6 @@
 """C02 - PLONK verification accepts only proofs of the stated public inputs.
 Same construction as C01 on specs/PlonkProtocol.tla."""
-from protocol_common import run_protocol
+from protocol_common import run_protocol, key_checks, CURVES
 from c01 import RULE, ASSUME
 
 
@@ -8,3 +8,5 @@ def run(ctx):
     ctx.rule = RULE % 'PlonkProtocol'
     ctx.assumptions += ASSUME
     run_protocol(ctx, 'PlonkProtocol', 'plonkreplay', 'plonk', quick_pairs=1500, thorough_pairs=40000)
+    ctx.tlc('PlonkTraceMC', 'PlonkTraceMC.cfg', workers=8)
+    key_checks(ctx, 'plonk', CURVES if ctx.tier != 'quick' else ['bn254', CURVES[1 + ctx.seed % 6]])
